@@ -316,7 +316,7 @@ PREFIXES = {
     "da": (mpf(10) ** 1, ("deca",)),
     "d": (mpf(10) ** -1, ("deci",)),
     "c": (mpf(10) ** -2, ("centi",)),
-    "m": (mpf(10) ** -3, ("milli", "mili")),
+    "m": (mpf(10) ** -3, ("milli",)),
     "µ": (mpf(10) ** -6, ("micro",)),  # U+00B5
     "u": (mpf(10) ** -6, ("micro",)),
     "μ": (mpf(10) ** -6, ("micro",)),  # U+03BC
